@@ -173,6 +173,9 @@ func genLight(r *Rand, mode string) *Project {
 		crlf := r.Chance(1, 5)
 		if crlf {
 			nl = "\r\n"
+		} else if r.Chance(1, 8) {
+			nl = "\r" // CR-only files are legal too (classic Mac line endings)
+			p.Features = append(p.Features, "cr-only-file")
 		}
 		text := strings.Join(g.files[n], nl)
 		if len(g.files[n]) > 0 && !r.Chance(1, 8) { // sometimes no final newline
